@@ -83,10 +83,30 @@ def script_from_state(m, sc, v, trail=None):
     specs = {s.idx: s for s in cfg['htlcs']}
     steps = []
     pending_delivery = set()
+    # Natively an RPC answer makes its task run at once, while in the model a linearised answer may sit unconsumed while
+    # other tasks are polled.  Answers are therefore held back (in order) across deliveries and polls of *other* tasks and
+    # handed over when the model polls the task that issued the call, or before any other step that reads or changes node
+    # state -- an equivalent schedule (a linearisation commutes with polls of other tasks).
+    deferred = []        # [(issuing task, op)]
+    def flush(upto_task=None):
+        if not deferred:
+            return
+        if upto_task is not None and not any(t == upto_task for t, _ in deferred):
+            return
+        last = max(i for i, (t, _) in enumerate(deferred) if upto_task is None or t == upto_task)
+        for t, op in deferred[:last + 1]:
+            steps.append(op)
+            steps.append({'op': 'settle'})
+        del deferred[:last + 1]
     tl = trail.to_list() if trail is not None else []
     for stp in tl:
         lab = stp['step']
         ch = dict((l, c) for l, c in stp['choices'])
+        mmp = re.match(r'^poll .*#(\d+)$', lab)
+        if mmp:
+            flush(int(mmp.group(1)))
+        elif not lab.startswith(('deliver ', 'lin ', 'init')):
+            flush()
         if lab == 'init':
             if mode == 'free' and ch.get('store.free.absent?', 0) == 1:
                 setup.append({'op': 'store', 'inv': inv0, 'state': 'free', 'generation': gen0})
@@ -155,7 +175,11 @@ def script_from_state(m, sc, v, trail=None):
                     op['code'] = env.wait_fail_codes[c]
             if mm.group(1) == 'waitsendpay' and 'code' not in op:
                 op['code'] = env.wait_fail_codes[0]
-            steps.append(op)
+            try:
+                owner = env.calls[int(mm.group(2))].task
+            except Exception:
+                owner = None
+            deferred.append((owner, op))
             continue
         mm = re.match(r'^part(\d+)->(\w+)$', lab)
         if mm:
@@ -178,7 +202,9 @@ def script_from_state(m, sc, v, trail=None):
             steps.append({'op': 'advance', 'ms': ms + 1})
             continue
         if lab == 'block arrives':
-            steps.append({'op': 'block', 'height': ev(env.height, mdl)})
+            hs = st.roots.get('block_heights', [])
+            nb = len([x for x in steps if x.get('op') == 'block'])
+            steps.append({'op': 'block', 'height': ev(hs[nb] if nb < len(hs) else env.height, mdl)})
             continue
         if lab == 'CRASH':
             steps.append({'op': 'restart'})
@@ -190,6 +216,7 @@ def script_from_state(m, sc, v, trail=None):
     for k in sorted(pending_delivery):
         steps.append(htlc_op(sc, specs[k], mdl))
         steps.append({'op': 'settle'})
+    flush()
     if v.kind in ('restart-grants-more-than-one-period', 'wrong-restart-timeout', 'wrong-timeout'):
         # the counterexample ends when the timer is armed: probe natively one MPP period (+0.5 s) later
         steps.append({'op': 'advance', 'ms': int(config['mpp_timeout_s']) * 1000 + 500})
@@ -381,9 +408,31 @@ def j_expiry(v, script, nat):
     tr = nat.get('trace', [])
     for i, e in enumerate(tr):
         if e.get('event') == 'block':
-            height = int(e['height'])
+            height = max(height, int(e['height']))      # a stale height told later does not lower the chain
         if e.get('event') == 'rpc' and e.get('method') == 'pay':
             held = [k for (_e, k) in e.get('held', [])]
+            # "held when the payment was initiated": natively the instant the lifecycle reads the table is not observable;
+            # it lies after the stored state was fetched and after the set became complete.  Only HTLCs delivered before
+            # the later of those two events are certainly counted -- HTLCs arriving later are left out of the bound
+            # (a larger bound: the judgement can only become more lenient).
+            amounts = _amounts(script)
+            need = None
+            try:
+                need = required(script, deliver_amount(script))
+            except Exception:
+                pass
+            fetch_i = next((j for j, x in enumerate(tr[:i]) if x.get('event') == 'rpc' and x.get('method') == 'listdatastore'), None)
+            got, ready_i = 0, None
+            for j, x in enumerate(tr[:i]):
+                if x.get('event') == 'htlc' and x.get('k') in held:
+                    got += amounts.get(x['k'], 0)
+                    if need is not None and got >= need and ready_i is None:
+                        ready_i = j
+            if fetch_i is not None and ready_i is not None:
+                cut = max(fetch_i, ready_i)
+                certain = [x['k'] for j, x in enumerate(tr[:i]) if x.get('event') == 'htlc' and x.get('k') in held and j <= cut]
+                if certain:
+                    held = certain
             mn = min(int(ops[k]['cltv']) for k in held) if held else 0
             md = e['params'].get('maxdelay')
             bound = max(0, mn - height - int(cfg['cltv_delta']))
@@ -413,7 +462,21 @@ def j_panic(v, script, nat):
         return True, 'panic: %s' % (nat.get('task_panics') or nat.get('panics'))[:3]
     return False, 'no panic natively'
 
+_NODE_ANSWERS = ('datastore', 'listdatastore', 'listsendpays', 'getinfo')
+
+def _starved(nat):
+    """The native run ended with a request outstanding that the node always answers: the script (derived from the
+    model's run) had no answer for it, i.e. the native execution diverged from the model's.  An unanswered HTLC then
+    says nothing about the plugin."""
+    return [c for c in nat.get('pending_calls', []) if c in _NODE_ANSWERS]
+
+def _diverged(nat):
+    """The script had an answer for a call the native run never made: the native execution left the model's path."""
+    return [e.get('method') for e in nat.get('trace', []) if e.get('event') == 'missing_call']
+
 def j_hang(v, script, nat):
+    if nat.get('still_waiting') and (_starved(nat) or _diverged(nat)):
+        return False, 'native run diverged from the script (unanswered %s, never asked for %s): no verdict on the hang' % (_starved(nat), _diverged(nat)[:4])
     if nat.get('still_waiting'):
         return True, 'htlcs %s never answered (pending calls %s, panics %s)' % (nat['still_waiting'], nat.get('pending_calls'), nat.get('task_panics'))
     return False, 'everything answered natively'
@@ -428,8 +491,8 @@ def _walk_parts(nat):
         elif e.get('event') == 'part':
             parts[e['id']] = e['status']
         elif e.get('event') == 'rpc':
-            for pid, stt in e.get('parts', []):
-                parts[pid] = stt
+            for ent in e.get('parts', []):
+                parts[ent[0]] = ent[1]
             if e.get('method') == 'pay':
                 running = e.get('answer') is None
         yield e, dict(parts), running
@@ -445,8 +508,9 @@ def j_fail_while_live(v, script, nat):
 def j_second_pay(v, script, nat):
     for e, parts, running in _walk_parts(nat):
         if e.get('event') == 'rpc' and e.get('method') == 'pay':
-            before = dict((pid, stt) for pid, stt in e.get('parts', []))
-            live = [p for p, s in before.items() if s in ('pending', 'complete')]
+            # parts of *earlier* attempts only: the parts this very command created (its own group) do not count
+            own = e.get('own_group')
+            live = [ent[0] for ent in e.get('parts', []) if ent[1] in ('pending', 'complete') and (len(ent) < 3 or ent[2] != own)]
             if live:
                 return True, 'pay issued while parts %s were pending/complete' % live
     return False, 'no pay over a live attempt natively'
@@ -529,13 +593,16 @@ def j_timeout(v, script, nat):
                 return True, 'failed after %d ms, before the MPP timeout of %d ms' % (e['t_ms'], mpp_ms)
             if e['t_ms'] > mpp_ms + 1000:
                 return True, 'failed after %d ms, more than one MPP timeout (%d ms)' % (e['t_ms'], mpp_ms)
-    if nat.get('still_waiting'):
+    if nat.get('still_waiting') and not _starved(nat):
         total = sum(int(s.get('ms', 0)) for s in script['steps'] if s.get('op') == 'advance')
         if total >= mpp_ms:
             return True, 'still unanswered %d ms after the wait began (MPP timeout %d ms)' % (total, mpp_ms)
     return False, 'timeout behaviour as expected natively'
 
 def j_unpayable(v, script, nat):
+    if _diverged(nat):
+        # answers left over at the end are dropped, which the plugin sees as RPC errors: failures after a divergence are artefacts
+        return False, 'native run diverged from the script (never asked for %s): no verdict' % _diverged(nat)[:4]
     probes = [r for r in nat.get('responses', []) if r['k'] >= 1]
     if any(r['response'].get('result') == 'resolve' for r in probes):
         return False, 'a retry was settled natively'
@@ -545,6 +612,8 @@ def j_unpayable(v, script, nat):
         return True, 'all %d retries failed natively (%s); state record left as %s' % (
             want, [r['response'].get('failure_message') for r in probes], [d['string'][:40] for d in recs])
     hung = [w for w in nat.get('still_waiting', []) if w[1] >= 1]
+    if hung and _starved(nat):
+        return False, 'native run diverged from the script (unanswered %s): no verdict on retries %s' % (_starved(nat), hung)
     if want and len(hung) + len(probes) >= want and hung:
         return True, 'retries %s were never answered natively (and %d failed): the hash is stuck' % (hung, len(probes))
     return False, 'retries not all answered natively: %s, waiting %s' % (probes, nat.get('still_waiting'))
@@ -611,6 +680,7 @@ JUDGES = {
     'policy-not-carried': j_policy,
     'gate-not-enforced': j_policy,
     'expiry-budget': j_expiry,
+    'maxdelay-missing': j_expiry,
     'resolve-with-foreign-preimage': j_foreign,
     'pay-for-foreign-htlc': j_foreign,
     'task-panic': j_panic,
